@@ -39,9 +39,20 @@ def plan(tier, seed):
             else:
                 shapes = [(1,)] if sorting else [(2,)]
             for shape in shapes:
-                repsets = ['m'] if tier == 'quick' else (['m', 'mn', 'd'] if k <= 2 else ['m'])
-                for reps in repsets:
-                    base = dict(kind='def', cmd=name, shape=list(shape), k=k, reps=reps)
+                # array representations: masked arrays, arrays without a mask array (n), plain ndarrays (d), and mixes -
+                # the first input's representation decides which numpy code path an accumulating implementation takes
+                if tier == 'quick':
+                    repsets = ['m'] + (['dm', 'md', 'nm'] if k == 2 else [])
+                else:
+                    repsets = ['m', 'mn', 'nm', 'd', 'dm', 'md'] if k <= 2 else (['m', 'dmm', 'mdm', 'nmm'] if k == 3 else ['m'])
+                variants = [dict(reps=r_) for r_ in repsets]
+                # element types: integer-typed fuzzy inputs (-1, 0, 1 - e.g. a binary layer), alone and mixed with floats
+                if k <= 2 or tier == 'thorough':
+                    variants += [dict(reps='m', kinds=kk) for kk in (['i'] if k == 1 else ['i', 'if', 'fi'])]
+                    if name == 'FuzzyWeightedUnion':
+                        variants += [dict(reps='m', kinds=kk, numkind='i') for kk in ('i', 'f')]       # whole-number weights
+                for var in variants:
+                    base = dict(kind='def', cmd=name, shape=list(shape), k=k, **var)
                     if name == 'FuzzySelectedUnion':
                         for which in ('Truest', 'Falsest'):
                             for sel in range(1, k + 1):
@@ -77,10 +88,11 @@ def plan(tier, seed):
 def inputs(ctx, cfg, prefix='x'):
     shape = tuple(cfg['shape'])
     reps = cfg.get('reps', 'm')
+    kinds = cfg.get('kinds', 'f')
     hs = []
     for j in range(cfg['k']):
         rep = D.REPS[reps[j] if j < len(reps) else reps[-1]]
-        hs.append(D.sym_array(ctx, '%s%d' % (prefix, j), shape, 'f', rep, fuzzy=True))
+        hs.append(D.sym_array(ctx, '%s%d' % (prefix, j), shape, kinds[j] if j < len(kinds) else kinds[-1], rep, fuzzy=True))
     return hs
 
 
@@ -91,7 +103,7 @@ def op_kwargs(ctx, name, hs, cfg, weights=None):
         return kw
     kw['InFieldNames'] = list(hs)
     if name == 'FuzzyWeightedUnion':
-        kw['Weights'] = weights if weights is not None else [D.sym_num(ctx, 'w%d' % j) for j in range(len(hs))]
+        kw['Weights'] = weights if weights is not None else [D.sym_num(ctx, 'w%d' % j, cfg.get('numkind', 'f')) for j in range(len(hs))]
     if name == 'FuzzySelectedUnion':
         kw['TruestOrFalsest'] = cfg.get('str', {}).get('TruestOrFalsest', 'Truest')
         kw['NumberToConsider'] = cfg.get('sel', 1)
